@@ -41,6 +41,9 @@ def run(rep, tier):
     _c01.dimension_tables(_Alias(rep, "R19.10"), F)      # the container folds (dimensions / boundary_dimensions / is_closed over the members; C01 R1.6)
     lines_rule(rep, F)
     map_rule(rep, F)
+    # MapCoords for Triangle rebuilds through Triangle::new, which re-orders the vertices by an orientation test: its table, also far from the origin
+    from . import gt_tables as _gt
+    _gt.run(rep, F, "R19.12", select={"Triangle::new"})
     error_discipline(rep, F)
 
 
